@@ -38,8 +38,6 @@ var moExempt = map[string]struct{ reason, shape string }{
 		"the keys are the format/any constraints {email, uri, date, datetime, uuid, any}; at most one of them is present on a node (each is produced only by the node's single type rule), so at most one iteration can return", "exits=return;writes=call String"},
 	"maporder|notations/jschema/internal/schema.(baseNode).SchemaType|range constraintToSchemaTypeMap": {
 		"same key set {any, date, datetime, uuid, uri, email}: at most one is present on a node, so at most one iteration returns", "exits=return;writes="},
-	"maporder|<root>.(*typeGuesser).Guess|range m": {
-		"the seven predicates are mutually exclusive on one token (quoted string / integer / float / true,false / { / [ / null), so at most one iteration returns", "exits=return;writes="},
 	"maporder|notations/jschema/internal/loader.CompileAllOf|range c.foundTypes": {
 		"inserts each found type under its own (unique) name into the root's type table: insertions under distinct keys commute; AddType fails only on a name that is already present, which does not depend on the order of the others", "exits=;writes=call AddType"},
 	"maporder|notations/jschema/internal/validator.(*Tree).setLeavesIndexes|range t.leaves": {
